@@ -227,7 +227,16 @@ func c20(w *core.World, r *core.Report) {
 							}
 							nK1++
 							site := core.Site(f, "passes %s() to %s", shortSrc(core.CalleeKey(gc)), core.FuncKey(callee))
-							r.Check(nilGuarded(x, gc), "OPTIONAL-MSG", site, w.InstrPos(x), fmt.Sprintf("a possibly absent sub-message is handed to a function that selects a field of it without a nil test (%s)", w.InstrPos(d)))
+							okp := nilGuarded(x, gc)
+							if gk := core.CalleeKey(gc); !okp && strings.HasSuffix(gk, "Val") {
+								// oneof getter inside its own case: the wrapper, hence the sub-message, is set
+								kind := gk[strings.LastIndex(gk, ".Get")+4:]
+								recv := core.CallRecv(gc)
+								okp = guardedByAssert(x, func(ta *ssa.TypeAssert) bool {
+									return strings.HasSuffix(ta.AssertedType.String(), "TypedValue_"+kind) && (core.FieldOf(ta.X) != "" && core.SameObject(core.FieldBase(ta.X), recv) || strings.HasSuffix(core.CalleeKey2(ta.X), "GetValue"))
+								})
+							}
+							r.Check(okp, "OPTIONAL-MSG", site, w.InstrPos(x), fmt.Sprintf("a possibly absent sub-message is handed to a function that selects a field of it without a nil test (%s)", w.InstrPos(d)))
 						}
 					}
 					// K4
